@@ -16,6 +16,14 @@ def cases(tier):
         for k in ((1,) if tier == 'quick' else (1, 2, 3, 4)):
             L.append(fsm_case('C09', fx, 'imm%d_subst' % k, ['P_C09', 'ENTRY=2', 'KIND=%d' % k, 'CB_BUDGET=1', 'CB_KINDS=0x1e'], timeout=900 * T, witness=False))
         L.append(fsm_case('C09', fx, 'sched', ['P_C09', 'ENTRY=2', 'KIND=7', 'CB_BUDGET=0'], timeout=300 * T, witness=False)) if False else None
+    # Manual activation: enter() with redirecting entry guards, then replayEnter() into a never-activated replica
+    for fam in (['fosel'] if tier == 'quick' else ['fosel', 'fsel', 'f10']):
+        o = dict(sublimit=2, manual=True, features=['TRANSITION_HISTORY'], callbacks=['guard', 'select'], act=['guard'], kinds=0x02)
+        fx = fixture('C09', fam, o, tag='man')
+        L.append(fsm_case('C09', fx, 'replay_enter', ['P_C09', 'ENTRY=22', 'CB_BUDGET=1', 'CB_KINDS=0x02', 'KIND=1', 'CB_ONLY_LEAVES'], timeout=900 * T, witness=False, cover=True,
+                          unwind_extra=[(r'initialEnter', 3)]))
+        L[-1].mem_est = 12
+        # round/request loops of initialEnter: tight; its fill loops are raised on demand (core.run_query)
     L = [c for c in L if c is not None]
     mark_cover(L, ['c09.f5.imm1_subst'])
     return L
@@ -25,4 +33,4 @@ def run(tier, seed):
     return execute('C09', tier, seed, cases(tier), COMMON_ASSUME + [
         'one external request (immediate*, kind case-split, destination symbolic); guards approve/cancel (single round) or one guard additionally substitutes one transition request (two rounds, either may be vetoed)',
         'oracle: (a) previousTransitions() == concatenation of the request sets of the approved guard rounds (destination, kind, origin), empty if none; (b) lastTransitionTo(s) null or inside the history, == that entry for every state activated by a single approved request; (c) an identically prepared replica (struct copy of the pre-state) replays the list: accepted, no guard consulted, same active forks, same resumable forks for single-round steps without scheduling',
-        'replayEnter() (Manual activation) is exercised in the thorough tier'])
+        'replayEnter(): Manual-activation fixtures, enter() with entry guards that may redirect the initial activation once, then replayEnter() of the recorded history into a never-activated replica (a veto of the initial activation is outside the statement)'])
